@@ -12,9 +12,12 @@ EXPLANATION = ('Proved: Context.get_cell / set_cell (a reference text is produce
                '(K3 shape on CellTranslator._set_cell_to_context); CellTranslator._set_cell_to_context over an abstract formula translator '
                '(K1): after translating a cell its uid is a key of the translation map, earlier entries are never removed or '
                'changed (also on exceptional exits), a constant is emitted as repr(value) / EmptyCell(), the marker set is '
-               'restored. Faithfulness (entry-point vs whole-file values) and cycle '
+               'restored; CellTranslator.translate returns a reference that names a registered uid (reference and member always '
+               'come together); CellTranslator.translate_file registers every cell that excel.get_cells() lists and keeps what was '
+               'there (loop invariant over the list). Faithfulness (entry-point vs whole-file values) and cycle '
                'rejection over all graph shapes are decided by the bounded differential monitor, so the level is other.')
-K1 = ['Context.get_cell', 'Context.set_cell', 'CellTranslator._set_cell_to_context']
+K1 = ['Context.get_cell', 'Context.set_cell', 'CellTranslator._set_cell_to_context', 'CellTranslator.translate',
+      'CellTranslator.translate_file']
 
 
 def _single_producer(res):
@@ -72,6 +75,9 @@ def _every_formula_path_checks(node):
 def run(ctx):
     res = PropResult('C03')
     K.k1_block(res, ctx, 'contracts.c03', K1, 'C03.')
+    K.canary_contract(res, 'contracts.c03', 'CellTranslator.translate_file', 'every_cell_registered',
+                      'all(has(old(context._cell_translations), uid_str(cells_of(excel)[j].title, cells_of(excel)[j].column, '
+                      'cells_of(excel)[j].row)) for j in range(len(cells_of(excel))))')
     _single_producer(res)
     tgt = 'repo:translators/cell_translator.py:CellTranslator._set_cell_to_context'
     K.shape(res, 'C03._set_cell_to_context.marker_discipline', tgt, _marker, 'cycle rejection')
